@@ -18,6 +18,10 @@ def run(c):
         s = dict(g, sc=i, via="SignEFIVariable" if i % 4 else "WriteSignedUpdate", burst=4 if i % 5 == 0 else 1)
         if i % 7 == 3 and s["via"] == "SignEFIVariable":
             s.update(mutate_after=True)   # the payload object is changed after signing, before the update is serialised
+        if i % 6 == 2:
+            s.update(issuer="ca")           # signer certificate issued by a CA: issuer differs from subject
+        if i % 3 == 1:
+            s.update(after_error=True)      # an earlier update failed in the signer
         if i % 23 == 1:
             s.update(slow=True, burst=1)    # a signer that takes longer than a second (hardware token): the clock ticks during the call
         scen.append(s)
